@@ -1,15 +1,24 @@
-"""C02 - see DESIGN.md section 4.  Bounded relational contract (E3) + proved helper obligations (E1)."""
+"""C02 - equality never lies.  E1 (proved): graphs of different classes never compare equal (12 ordered class pairs, arbitrary
+graphs).  E3 (bounded): (a == b) implies a brute-force structure-preserving bijection."""
 import time
 
-from ..core import Report
+from ..core import Report, src_info
 from ..e3 import eqhash
+from ..par import pmap
+from . import e1_eq
 
 
 def run(tier, seed):
     t0 = time.time()
     rep = Report("C02", tier, seed)
-    rep.level = "exploration"
+    rep.level = "other"
+    for obs, _ in pmap("vf.props.e1_eq", e1_eq.tasks()):
+        rep.obs.extend(obs)
     eqhash.run_c02(rep, tier, seed)
-    rep.rule = "E3 scope of DESIGN Appendix B: structured skeletons x element assignments x roles x stereo decorations x variants; distinct_nontrivial counts distinct base graphs"
-    rep.assumptions = ["bounded: only the enumerated scope is covered; oracle = brute-force bijection search with oracle symmetry groups"]
+    rep.functions = [src_info(e1_eq.REL[c], f"{c}.__eq__") for c in e1_eq.CLASSES]
+    rep.rule = "E1: symbolic execution of `a == b` (incl. the reflected-operand protocol) for every ordered pair of distinct classes; E3 scope of DESIGN Appendix B; distinct_nontrivial = distinct base graphs"
+    rep.trusted_base = ["pyvc: Python's == protocol (NotImplemented on both sides -> identity), type(), MRO"]
+    rep.assumptions = ["bounded: soundness of == within one class is checked against brute force on the enumerated scope only"]
+    rep.explanation = "12 proof obligations (cross-class pairs); the same-class clause is bounded (coverage.bounded_groups)"
+    rep.samples = [o.name for o in rep.obs if o.kind == "proof"][:6]
     return rep, t0
